@@ -319,7 +319,74 @@ func GenProgSized(seed uint64, big bool) *Prog {
 	for _, i := range order {
 		p.Pkts = append(p.Pkts, dag[i])
 	}
+	g.hotMeta(p, NewRng(SubSeed(seed, "hotmeta", 0)))
 	return p
+}
+
+// hotMeta makes, in some programs, one fixed-string MetaData type a field of
+// several packets, each with its own padding attribute (or none): state that
+// the parser shares between packets. It draws from its own stream so that the
+// rest of the program is the same with and without it.
+func (g *gen) hotMeta(p *Prog, rx *Rng) {
+	if len(p.Pkts) < 2 || !rx.Chance(1, 4) {
+		return
+	}
+	var fixed []MetaDecl
+	for _, d := range g.metas {
+		if t := g.resolveMetaType(&d); strings.Contains(t, "char[") && !strings.HasSuffix(t, "char[]") {
+			fixed = append(fixed, d)
+		}
+	}
+	var hot MetaDecl
+	if len(fixed) > 0 && rx.Chance(2, 3) {
+		hot = fixed[rx.Intn(len(fixed))]
+	} else {
+		name := ""
+		for _, n := range []string{"Account", "Trader", "BranchCode", "SecurityCode", "HotText"} {
+			if !g.used[n] && !reserved[n] {
+				name = n
+				break
+			}
+		}
+		if name == "" {
+			return
+		}
+		g.used[name] = true
+		hot = MetaDecl{Name: name, Type: fmt.Sprintf("%s[%d]", rx.Pick([]string{"char", "zchar"}), 2+rx.Intn(12)), Desc: "`shared text`"}
+		if len(p.Metas) > 0 && rx.Chance(1, 2) {
+			mb := p.Metas[rx.Intn(len(p.Metas))]
+			mb.Decls = append(mb.Decls, hot)
+		} else {
+			bn := "SharedMeta"
+			if g.used[bn] {
+				return
+			}
+			g.used[bn] = true
+			p.Metas = append(p.Metas, &MetaBlock{Name: bn, Decls: []MetaDecl{hot}})
+		}
+		g.metas = append(g.metas, hot)
+	}
+	for _, pk := range p.Pkts {
+		if !rx.Chance(3, 4) {
+			continue
+		}
+		taken := map[string]bool{}
+		for _, f := range pk.Fields {
+			taken[f.fieldName()] = true
+		}
+		f := &Fld{Kind: FMetaRef, Type: hot.Name, Desc: "`shared`"}
+		if taken[hot.Name] || rx.Chance(1, 3) {
+			f.Name = "hot" + hot.Name
+			if taken[f.Name] {
+				continue
+			}
+		}
+		if rx.Chance(4, 5) {
+			f.Attrs = append(f.Attrs, fmt.Sprintf("@%sPad(%s)", rx.Pick([]string{"left", "right"}), padChars[rx.Intn(3)]))
+		}
+		pos := rx.Intn(len(pk.Fields) + 1)
+		pk.Fields = append(pk.Fields[:pos], append([]*Fld{f}, pk.Fields[pos:]...)...)
+	}
 }
 
 // packet names that are reserved device names on some platforms or collide
